@@ -85,6 +85,9 @@ func (mux *TypeMux) Subscribe(types ...interface{}) *TypeMuxSubscription {
 }
 
 func (mux *TypeMux) AsyncPost(ev interface{}) {
+	if verifAsyncPost(mux, ev) {
+		return
+	}
 	go func() {
 		err := mux.Post(ev)
 		if err != nil {
